@@ -27,6 +27,7 @@ func Analyse(def *Def, cfg load.Config, tier string) ([]chk.Obligation, int) {
 			Detail: "cannot load/type-check the repository: " + strings.ReplaceAll(err.Error(), "\n", " ")}}, 0
 	}
 	p := ir.New(lp)
+	defer ir.Forget(p)
 	fa := facts.Analyze(p)
 	c := &chk.Ctx{P: p, F: fa, M: chk.Resolve(p)}
 	for _, pr := range c.M.Problems {
@@ -257,6 +258,7 @@ func AnalyseAll(cfg load.Config) map[string][]chk.Obligation {
 		return out
 	}
 	p := ir.New(lp)
+	defer ir.Forget(p)
 	fa := facts.Analyze(p)
 	m := chk.Resolve(p)
 	for _, id := range IDs() {
